@@ -80,6 +80,8 @@ type scenario struct {
 	// SlowSync: File.Sync takes that long on the backend (virtual time; the caller is blocked in the call). The lock protocol
 	// never syncs: the scenario costs nothing as long as that stays so
 	SlowSync time.Duration
+	// ObserverIDSuffix: what the observers' lock id has after the holder's ("\n": an id read from a file)
+	ObserverIDSuffix string
 	// glitch mode: the holder's GlitchAt-th backend operation after its Mkdir of the lock directory fails once with a
 	// transient error (the backend is left untouched by that operation); everything else is on time
 	GlitchAt int
@@ -244,14 +246,23 @@ func newBackend(kind string) afero.Fs {
 	return vfsx.NewPosixMem()
 }
 
+// observerIDSuffix is appended to the lock id the observers of the running scenario use: the lock directory is named after
+// the TRIMMED id, so "L" and "L\n" (an id read from a file) are the same lock. Set per execution by body().
+var observerIDSuffix string
+
 func newLock(backend afero.Fs, shared *vfsx.Shared, client int, override bool) filesystem.ILock {
 	wrapper := vfsx.NewMem(backend, shared, client)
 	vfs := filesystem.NewVirtualFileSystem(wrapper, filesystem.InMemoryFS, filesystem.IdentityPathConverterFunc).(*filesystem.VFS)
-	return filesystem.NewGenericRemoteLockFile(vfs, lockID, lockRoot, override)
+	id := lockID
+	if client > 0 {
+		id += observerIDSuffix
+	}
+	return filesystem.NewGenericRemoteLockFile(vfs, id, lockRoot, override)
 }
 
 func body(sc scenario) func(x *gosim.Exec) {
 	return func(x *gosim.Exec) {
+		observerIDSuffix = sc.ObserverIDSuffix
 		w := &world{x: x, sc: sc, recHolding: make([]bool, 16), releasing: make([]bool, 16), stale: make([]int, 16), silence: map[int]time.Duration{}, dead: make(chan struct{}), dirOwner: -1, outcome: make([]string, 1+len(sc.Observers)+sc.Racers)}
 		x.User = w
 		verifrt.EventHook = func(name string) {
@@ -517,6 +528,8 @@ func scenarios() []scenario {
 		scenario{Name: "ontime/H10/poll TryLock-override every 13ms", Mode: "ontime", HoldBeats: 10, Bound: 0, Observers: []observer{obs(13*time.Millisecond, rep("TryLock-override", 38)...)}},
 		scenario{Name: "ontime/H10/poll IsStale every 7ms, fsync takes 120 ms", Mode: "ontime", HoldBeats: 10, Bound: 0, SlowSync: 120 * time.Millisecond, Observers: []observer{obs(7*time.Millisecond, rep("IsStale", 70)...)}},
 		scenario{Name: "ontime/H10/poll TryLock-override every 13ms, fsync takes 120 ms", Mode: "ontime", HoldBeats: 10, Bound: 0, SlowSync: 120 * time.Millisecond, Observers: []observer{obs(13*time.Millisecond, rep("TryLock-override", 38)...)}},
+		scenario{Name: "ontime/H10/poll IsStale every 7ms, the observer's id ends in a line feed", Mode: "ontime", HoldBeats: 10, Bound: 0, ObserverIDSuffix: "\n", Observers: []observer{obs(7*time.Millisecond, rep("IsStale", 70)...)}},
+		scenario{Name: "ontime/H10/poll TryLock-override every 13ms, the observer's id ends in a blank", Mode: "ontime", HoldBeats: 10, Bound: 0, ObserverIDSuffix: " ", Observers: []observer{obs(13*time.Millisecond, rep("TryLock-override", 38)...)}},
 		scenario{Name: "ontime/H2/1obs(mem)", Mode: "ontime", Backend: "mem", HoldBeats: 2, Bound: 2, Observers: []observer{obs(30*time.Millisecond, "IsStale", "ReleaseIfStale", "TryLock-override")}},
 	)
 	// (a') one transient backend error in the holder's steady state: k-th operation after the lock directory was created
